@@ -34,6 +34,8 @@ def run(ctx):
     shufalg.tag_generation(ctx, facts, "TAG")
     from rules import C19
     C19.core(ctx, facts)               # every mask-and-permute round moves rows with reshard_iter: nothing lost, duplicated or filed under the wrong origin
+    from rules import C01
+    C01.collective_stages(ctx, facts, only=r"::shuffle::")     # a shard with no rows of its own still receives rows in every resharding step
     fields(ctx, facts)
     tag_consts(ctx, facts)
     key_cover(ctx, facts)
